@@ -43,6 +43,19 @@ NODE_CLASSES = (
 )
 
 
+def _from_dependency(e: BaseException) -> bool:
+    """True if the innermost frame of the exception is inside skimage / scipy / numpy or
+    the regionprops extension (degenerate mask the dependency cannot measure)."""
+    tb = e.__traceback__
+    last = None
+    while tb is not None:
+        last = tb.tb_frame.f_code.co_filename
+        tb = tb.tb_next
+    if last is None:
+        return False
+    return any(x in last for x in ("/skimage/", "/scipy/", "/numpy/", "_regionprops_extended"))
+
+
 def _alarm_handler(signum, frame):
     raise StepTimeout()
 
@@ -70,6 +83,9 @@ class Sim:
         self._connect()
         self.with_seg = self.tracks.segmentation is not None
         self.epochs: dict = {}
+        # id keys renumbered by a bulk re-enable: the undo history still replays the old
+        # numbers, so these keys are never compared against timeline snapshots again
+        self.tainted: set = set()
         self.last_canon = observe.canon(self.tracks)
         self.timeline = models.Timeline(self._snap(self.last_canon))
         self.labels: list = []  # transition labels parallel to timeline (named sets)
@@ -116,7 +132,8 @@ class Sim:
 
     def _keys_ok(self, snap_epochs):
         cur = self.epochs
-        return lambda k: snap_epochs.get(k, 0) == cur.get(k, 0)
+        tainted = self.tainted
+        return lambda k: k not in tainted and snap_epochs.get(k, 0) == cur.get(k, 0)
 
     def active(self, prop):
         return prop in self.props
@@ -624,6 +641,10 @@ class Sim:
         except StepTimeout:
             raise
         except Exception as e:  # noqa: BLE001
+            if _from_dependency(e):
+                # a dependency (skimage/numpy) cannot compute a feature for this mask:
+                # outside every listed property (DESIGN §9); the run is discarded, counted
+                self.guard("dependency_abort", f"{kind}: {type(e).__name__}: {str(e)[:120]}")
             name = type(e).__name__
             out["exc"] = name
             out["msg"] = str(e)[:200]
@@ -1246,6 +1267,8 @@ class Sim:
             for k in keys:
                 self.epochs[k] = self.epochs.get(k, 0) + 1
                 (self.model_active.add if on else self.model_active.discard)(k)
+                if on and k in (tr.features.tracklet_key, tr.features.lineage_key):
+                    self.tainted.add(k)
             # the current timeline state is re-based: same point, new feature set
             self.timeline.T[self.timeline.p] = (observe.canon(tr), dict(self.epochs))
             if on and self.step_no > 0:
@@ -1559,6 +1582,7 @@ class Sim:
         worldmod.register_custom(tracks)
         self._connect()
         self.epochs = {}
+        self.tainted = set()
         self.last_canon = observe.canon(tracks)
         self.timeline = models.Timeline(self._snap(self.last_canon))
         self.model_active = set(tracks.annotators.features)
